@@ -346,6 +346,11 @@ func (x *Exec) havocLoop(st *State, fr *Frame, header *ssa.BasicBlock, li *loopI
 			}
 		}
 	}
+	if all || ghosts["perm.admin"] {
+		// bridge-hook notifications may be sent in the body: their number is arbitrary after the loop
+		st.hookCount = x.enc.FreshConst("hookCount@loop", "Int")
+		st.Assume(fmt.Sprintf("(>= %s 0)", st.hookCount))
+	}
 	if all {
 		x.havocGhost(st, nil, true)
 	} else if len(ghosts) > 0 {
